@@ -777,3 +777,345 @@ func concStr(g *G, v Value) string {
 	}
 	return s.C
 }
+
+// deepEq: reflect.DeepEqual over interpreter values (symbolic leaves give a symbolic result)
+func (g *G) deepEq(a, b Value, depth int) Bool {
+	if depth > 50 {
+		g.inconclusive("reflect.DeepEqual recursion depth")
+	}
+	and := func(x, y Bool) Bool { return mkBool(And(x.Term(), y.Term())) }
+	switch x := a.(type) {
+	case Iface:
+		y, ok := b.(Iface)
+		if !ok {
+			return Bool{C: false}
+		}
+		if x.T == nil || y.T == nil {
+			return Bool{C: x.T == nil && y.T == nil}
+		}
+		if !types.Identical(x.T, y.T) {
+			return Bool{C: false}
+		}
+		return g.deepEq(x.V, y.V, depth+1)
+	case *Value:
+		y, ok := b.(*Value)
+		if !ok {
+			return Bool{C: false}
+		}
+		if x == nil || y == nil {
+			return Bool{C: x == nil && y == nil}
+		}
+		if x == y {
+			return Bool{C: true}
+		}
+		return g.deepEq(*x, *y, depth+1)
+	case Struct:
+		y := b.(Struct)
+		r := Bool{C: true}
+		for i := range x {
+			r = and(r, g.deepEq(x[i], y[i], depth+1))
+		}
+		return r
+	case Array:
+		y := b.(Array)
+		r := Bool{C: true}
+		for i := range x {
+			r = and(r, g.deepEq(x[i], y[i], depth+1))
+		}
+		return r
+	case Slice:
+		switch y := b.(type) {
+		case Slice:
+			if (x == nil) != (y == nil) || len(x) != len(y) {
+				return Bool{C: false}
+			}
+			r := Bool{C: true}
+			for i := range x {
+				r = and(r, g.deepEq(x[i], y[i], depth+1))
+			}
+			return r
+		case *Blob:
+			return g.deepEq(blobFromSlice(g, x), y, depth+1)
+		}
+		return Bool{C: false}
+	case *Blob:
+		var y *Blob
+		switch yy := b.(type) {
+		case *Blob:
+			y = yy
+		case Slice:
+			if (x == nil) != (yy == nil) {
+				return Bool{C: false}
+			}
+			y = blobFromSlice(g, yy)
+		default:
+			return Bool{C: false}
+		}
+		if (x == nil) != (y == nil) {
+			return Bool{C: false}
+		}
+		xt, ok1 := x.byteTerms()
+		yt, ok2 := y.byteTerms()
+		if !ok1 || !ok2 {
+			g.inconclusive("reflect.DeepEqual on abstract payloads")
+		}
+		if len(xt) != len(yt) {
+			return Bool{C: false}
+		}
+		c := TrueT
+		for i := range xt {
+			c = And(c, Eq(xt[i], yt[i]))
+		}
+		return mkBool(c)
+	case *MapV:
+		y, ok := b.(*MapV)
+		if !ok {
+			return Bool{C: false}
+		}
+		if (x == nil) != (y == nil) || x.Len() != y.Len() {
+			return Bool{C: false}
+		}
+		r := Bool{C: true}
+		for i := range x.Keys {
+			j := g.mapFind(y, x.Keys[i])
+			if j < 0 {
+				return Bool{C: false}
+			}
+			r = and(r, g.deepEq(x.Vals[i], y.Vals[j], depth+1))
+		}
+		return r
+	case *Closure:
+		y, _ := b.(*Closure)
+		return Bool{C: x == nil && y == nil}
+	}
+	return eqVals(g, a, b)
+}
+
+func init() {
+	I := func(v int) Value { return Int{C: uint64(int64(v))} }
+	reg("reflect.TypeFor", func(g *G, fr *Frame, fn *ssa.Function, a []Value) Value {
+		ta := fn.TypeArgs()
+		if len(ta) != 1 {
+			g.inconclusive("reflect.TypeFor without a type argument")
+		}
+		return g.rtype(ta[0])
+	})
+	reg("reflect.DeepEqual", func(g *G, fr *Frame, fn *ssa.Function, a []Value) Value {
+		return g.deepEq(a[0], a[1], 0)
+	})
+	reg("reflect.MakeSlice", func(g *G, fr *Frame, fn *ssa.Function, a []Value) Value {
+		t := asRType(g, a[0]).T
+		st, ok := under(t).(*types.Slice)
+		if !ok {
+			g.goPanicPlain("reflect.MakeSlice of non-slice type")
+		}
+		n, c := int(a[1].(Int).C), int(a[2].(Int).C)
+		s := make(Slice, n, c)
+		for i := range s {
+			s[i] = zero(st.Elem())
+		}
+		return RV{T: t, V: s}
+	})
+	reg("reflect.MakeMap", func(g *G, fr *Frame, fn *ssa.Function, a []Value) Value {
+		t := asRType(g, a[0]).T
+		mt, ok := under(t).(*types.Map)
+		if !ok {
+			g.goPanicPlain("reflect.MakeMap of non-map type")
+		}
+		return RV{T: t, V: &MapV{KT: mt.Key()}}
+	})
+	reg("reflect.Append", func(g *G, fr *Frame, fn *ssa.Function, a []Value) Value {
+		s := asRV(a[0])
+		st := under(s.T).(*types.Slice)
+		out, _ := s.val().(Slice)
+		for _, x := range sliceArgs(a[1]) {
+			out = append(out, copyVal(toDeclared(x.(RV), st.Elem())))
+		}
+		return RV{T: s.T, V: out}
+	})
+	V := func(name string, f func(g *G, v RV, a []Value) Value) {
+		reg("(reflect.Value)."+name, func(g *G, fr *Frame, fn *ssa.Function, a []Value) Value {
+			return f(g, asRV(a[0]), a[1:])
+		})
+	}
+	V("Index", func(g *G, v RV, a []Value) Value {
+		i := a[0].(Int)
+		switch x := v.val().(type) {
+		case Slice:
+			k := g.concreteIndex(i, len(x), "reflect slice")
+			return RV{T: under(v.T).(*types.Slice).Elem(), Addr: &x[k]}
+		case Array:
+			k := g.concreteIndex(i, len(x), "reflect array")
+			if v.Addr != nil {
+				arr := (*v.Addr).(Array)
+				return RV{T: under(v.T).(*types.Array).Elem(), Addr: &arr[k]}
+			}
+			return RV{T: under(v.T).(*types.Array).Elem(), V: x[k]}
+		case Str:
+			bs, _ := x.Bytes()
+			k := g.concreteIndex(i, len(bs), "reflect string")
+			return RV{T: types.Typ[types.Uint8], V: mkInt(bs[k])}
+		}
+		g.goPanicPlain("reflect: call of reflect.Value.Index on " + kindOf(v.T).String() + " Value")
+		return nil
+	})
+	V("Cap", func(g *G, v RV, a []Value) Value {
+		if s, ok := v.val().(Slice); ok {
+			return I(cap(s))
+		}
+		return g.lenOf(v.val())
+	})
+	V("FieldByName", func(g *G, v RV, a []Value) Value {
+		st, ok := under(v.T).(*types.Struct)
+		if !ok {
+			g.goPanicPlain("reflect: call of reflect.Value.FieldByName on " + kindOf(v.T).String() + " Value")
+		}
+		name := concStr(g, a[0])
+		for i := 0; i < st.NumFields(); i++ {
+			if st.Field(i).Name() == name {
+				if v.Addr != nil {
+					s := (*v.Addr).(Struct)
+					return RV{T: st.Field(i).Type(), Addr: &s[i]}
+				}
+				return RV{T: st.Field(i).Type(), V: v.V.(Struct)[i]}
+			}
+		}
+		return RV{}
+	})
+	V("MapIndex", func(g *G, v RV, a []Value) Value {
+		mt := under(v.T).(*types.Map)
+		m, _ := v.val().(*MapV)
+		k := a[0].(RV)
+		i := g.mapFind(m, toDeclared(k, mt.Key()))
+		if i < 0 {
+			return RV{}
+		}
+		return RV{T: mt.Elem(), V: m.Vals[i]}
+	})
+	V("SetMapIndex", func(g *G, v RV, a []Value) Value {
+		mt := under(v.T).(*types.Map)
+		m, _ := v.val().(*MapV)
+		if m == nil {
+			g.goPanicPlain("assignment to entry in nil map")
+		}
+		k, e := a[0].(RV), a[1].(RV)
+		if e.T == nil {
+			g.mapDelete(m, toDeclared(k, mt.Key()))
+			return nil
+		}
+		g.mapSet(m, toDeclared(k, mt.Key()), copyVal(toDeclared(e, mt.Elem())))
+		return nil
+	})
+	V("MapKeys", func(g *G, v RV, a []Value) Value {
+		mt := under(v.T).(*types.Map)
+		m, _ := v.val().(*MapV)
+		var out Slice
+		if m != nil {
+			for _, k := range m.Keys {
+				out = append(out, RV{T: mt.Key(), V: k})
+			}
+		}
+		return out
+	})
+	V("Float", func(g *G, v RV, a []Value) Value { return v.val().(F64) })
+	V("SetInt", func(g *G, v RV, a []Value) Value {
+		if v.Addr == nil {
+			g.goPanicPlain("reflect: reflect.Value.SetInt using unaddressable value")
+		}
+		w, _, _ := intWidth(v.T)
+		store(v.Addr, mkInt(Extract(a[0].(Int).Term(64), w-1, 0)))
+		return nil
+	})
+	V("SetString", func(g *G, v RV, a []Value) Value {
+		if v.Addr == nil {
+			g.goPanicPlain("reflect: reflect.Value.SetString using unaddressable value")
+		}
+		store(v.Addr, a[0])
+		return nil
+	})
+	V("SetBool", func(g *G, v RV, a []Value) Value {
+		if v.Addr == nil {
+			g.goPanicPlain("reflect: reflect.Value.SetBool using unaddressable value")
+		}
+		store(v.Addr, a[0])
+		return nil
+	})
+	V("Method", func(g *G, v RV, a []Value) Value {
+		ms := g.run.P.methods(v.T)
+		i := int(a[0].(Int).C)
+		if i < 0 || i >= len(ms) {
+			g.goPanicPlain("reflect: Method index out of range")
+		}
+		sel := ms[i]
+		fnv := g.run.P.Prog.MethodValue(sel)
+		recv := v.val()
+		bound := &Closure{Name: "bound:" + fnv.String(), Native: func(g *G, args []Value) Value {
+			return g.callFn(&Closure{Fn: fnv}, append([]Value{recv}, args...), g.top, token.NoPos)
+		}}
+		return RV{T: sel.Type(), V: bound}
+	})
+	V("Send", func(g *G, v RV, a []Value) Value {
+		ct := under(v.T).(*types.Chan)
+		g.chanSend(v.val().(*Chan), copyVal(toDeclared(a[0].(RV), ct.Elem())))
+		return nil
+	})
+	V("Recv", func(g *G, v RV, a []Value) Value {
+		ct := under(v.T).(*types.Chan)
+		x, ok := g.chanRecv(v.val().(*Chan))
+		return Tuple{RV{T: ct.Elem(), V: x}, Bool{C: ok}}
+	})
+	T := func(name string, f func(g *G, t types.Type, a []Value) Value) {
+		reg("(*reflect.rtype)."+name, func(g *G, fr *Frame, fn *ssa.Function, a []Value) Value {
+			return f(g, asRType(g, a[0]).T, a[1:])
+		})
+	}
+	T("Key", func(g *G, t types.Type, a []Value) Value {
+		mt, ok := under(t).(*types.Map)
+		if !ok {
+			g.goPanicPlain("reflect: Key of non-map type " + typeString(t))
+		}
+		return g.rtype(mt.Key())
+	})
+	T("Len", func(g *G, t types.Type, a []Value) Value {
+		at, ok := under(t).(*types.Array)
+		if !ok {
+			g.goPanicPlain("reflect: Len of non-array type " + typeString(t))
+		}
+		return I(int(at.Len()))
+	})
+	T("IsVariadic", func(g *G, t types.Type, a []Value) Value {
+		sig, ok := under(t).(*types.Signature)
+		if !ok {
+			g.goPanicPlain("reflect: IsVariadic of non-func type " + typeString(t))
+		}
+		return Bool{C: sig.Variadic()}
+	})
+	T("FieldByName", func(g *G, t types.Type, a []Value) Value {
+		st, ok := under(t).(*types.Struct)
+		if !ok {
+			g.goPanicPlain("reflect: FieldByName of non-struct type " + typeString(t))
+		}
+		name := concStr(g, a[0])
+		sft := g.run.P.NamedType("reflect", "StructField")
+		for i := 0; i < st.NumFields(); i++ {
+			f := st.Field(i)
+			if f.Name() == name {
+				return Tuple{g.mkStruct(sft, map[string]Value{"Name": S(f.Name()), "Type": g.rtype(f.Type()), "Tag": S(st.Tag(i)), "Index": Slice{I(i)}, "Anonymous": Bool{C: f.Embedded()}}), Bool{C: true}}
+			}
+		}
+		return Tuple{zero(sft), Bool{C: false}}
+	})
+	T("ChanDir", func(g *G, t types.Type, a []Value) Value {
+		ct, ok := under(t).(*types.Chan)
+		if !ok {
+			g.goPanicPlain("reflect: ChanDir of non-chan type " + typeString(t))
+		}
+		switch ct.Dir() {
+		case types.SendOnly:
+			return I(int(reflect.SendDir))
+		case types.RecvOnly:
+			return I(int(reflect.RecvDir))
+		}
+		return I(int(reflect.BothDir))
+	})
+}
